@@ -49,7 +49,7 @@ func idxValuePool(r *rng.R) []interface{} {
 	}
 	if r.Chance(0.15) {
 		// integers far apart (their difference does not fit 64 bits) and beyond 2^53 but exact in float64
-		out = append(out, i64(3<<61), i64(-(3<<61)), i64(1<<60), u64(1<<63))
+		out = append(out, i64(3<<61), i64(-(3 << 61)), i64(1<<60), u64(1<<63))
 	}
 	n := r.Range(5, 14)
 	for i := 0; i < n; i++ {
